@@ -37,6 +37,7 @@ MODULES = {
     "dhcpcfg": ("dhcp_cfg.rs", "crates/erbium-core/src/dhcp/config.rs", "verif_cfg"),
     "radv": ("radv_wire.rs", "crates/erbium-core/src/radv/icmppkt.rs", "verif_radv"),
     "ratelimit": ("dns_ratelimit.rs", "crates/erbium-core/src/dns/mod.rs", "verif_ratelimit"),
+    "listener": ("dns_listener.rs", "crates/erbium-core/src/dns/mod.rs", "verif_listener"),
 }
 
 
